@@ -33,3 +33,24 @@ def _duration_frozen(kind, w):
     scheduled_not_completed = x["op_end"] > x["now"]
     return (scheduled_not_completed and x["got"] == x["frozen_model_value"]
             and x["got"] != x["want"])
+
+
+@classifier("multi_env_padding_overflow_non_classic_generator")
+def _multi_env_padding_overflow(kind, w):
+    """MultiJobShopGraphEnv sizes its observation space from ONE instance drawn
+    with the maximum numbers of jobs and machines.  With generators whose
+    graph size is not a function of (jobs, machines) alone - recirculation or a
+    variable number of machines per operation - a later instance can have more
+    edges / nodes, and reset()/step() raises add_padding's ValidationError.
+    Matches only: that exact error, raised from add_padding, for a generator
+    that is not classic."""
+    if kind not in ("c18_multi_env_reset_raised", "c18_multi_env_step_raised"):
+        return False
+    x = w.get("witness", {})
+    g = x.get("generator", {})
+    mpo = g.get("machines_per_operation", 1)
+    non_classic = bool(g.get("allow_recirculation")) or (
+        (max(mpo) if isinstance(mpo, (list, tuple)) else mpo) > 1)
+    return (non_classic and x.get("from_add_padding") is True
+            and str(x.get("error", "")).startswith(
+                "Output shape must be greater than the input shape."))
